@@ -161,6 +161,38 @@ Proof.
   - exact (incl_many_sound fuel _ K Hi k Hk r Hr Mk).
 Qed.
 
+(* ---------- the first-byte abstraction ---------- *)
+Lemma fabs_incl K : fabs_ok K = true -> forall t, bytes_ok t -> matches K t -> matches (fabs K) t.
+Proof.
+  unfold fabs_ok, fabs. rewrite forallb_forall. intros H t Hb M. apply norm_iff in M.
+  destruct t as [|b t'].
+  - apply MAltR. apply nullable_iff in M. rewrite M. constructor.
+  - apply MAltL. inversion Hb as [|? ? Hb1 Hb2]; subst. specialize (H b (all_bytes_in b Hb1)).
+    apply andb_true_iff in H. destruct H as [H _]. apply deriv_iff in M.
+    apply orb_true_iff in H. destruct H as [H|H].
+    + destruct (deriv b (norm K)); try discriminate. exfalso. eapply empty_inv; eauto.
+    + change (b :: t') with ([b] ++ t'). apply MCat; [constructor; exact H | apply any_matches; exact Hb2].
+Qed.
+Lemma opt_eps_inv b t : matches (opt_eps b) t -> b = true /\ t = [].
+Proof. destruct b; simpl; intros M; [apply eps_inv in M; auto | exfalso; eapply empty_inv; eauto]. Qed.
+Lemma chr_any_inv cs t : matches (Cat (Chr cs) Any) t -> exists b t', t = b :: t' /\ cs_mem b cs = true.
+Proof.
+  intros M. apply cat_inv in M. destruct M as [a [k [-> [Ha _]]]]. apply chr_inv in Ha. destruct Ha as [b [-> Hm]].
+  exists b, k. auto.
+Qed.
+Lemma fabs_disj K : fabs_ok K = true -> forall t, bytes_ok t -> matches (fabs K) t -> matches (cofabs K) t -> False.
+Proof.
+  unfold fabs_ok, fabs, cofabs. rewrite forallb_forall. intros H t Hb M1 M2.
+  apply alt_inv in M1. apply alt_inv in M2.
+  destruct M1 as [M1|M1]; destruct M2 as [M2|M2].
+  - apply chr_any_inv in M1. destruct M1 as [b [t' [-> Hm1]]]. apply chr_any_inv in M2. destruct M2 as [b2 [t2 [E Hm2]]].
+    inversion E; subst b2 t2. inversion Hb as [|? ? Hb1 Hb2]; subst. specialize (H b (all_bytes_in b Hb1)).
+    apply andb_true_iff in H. destruct H as [_ H]. rewrite Hm1, Hm2 in H. discriminate.
+  - apply chr_any_inv in M1. destruct M1 as [b [t' [-> _]]]. apply opt_eps_inv in M2. destruct M2 as [_ E]. discriminate.
+  - apply chr_any_inv in M2. destruct M2 as [b [t' [-> _]]]. apply opt_eps_inv in M1. destruct M1 as [_ E]. discriminate.
+  - apply opt_eps_inv in M1. apply opt_eps_inv in M2. destruct M1 as [E1 _]. destruct M2 as [E2 _]. rewrite E1 in E2. discriminate.
+Qed.
+
 Definition nf2_pred (o : option re) (t : list byte) : Prop := match o with Some X => ~ matches X t | None => True end.
 Lemma kx2_sem o K t : nf2_pred o t -> matches (Kx2 o K) t -> matches K t.
 Proof.
